@@ -376,6 +376,22 @@ fn overflow_boundary() {
             }
         }
     }
+    // ... and the same for programs: a lazily produced program of astronomic announced length is
+    // refused from its length, for PushState and for a macro fixture
+    for announce in [usize::MAX, usize::MAX - 1, 1usize << 60, 1 << 40] {
+        cases += 1;
+        let r = std::panic::catch_unwind(|| {
+            let a = PushState::builder().with_max_stack_size(16).with_instruction_step_limit(1).with_program((0..announce).map(|k| PushProgram::from(IntInstruction::push(k as i64)))).map(|_| ()).map_err(|e| err_name(&e));
+            let b = PushState::builder().with_max_stack_size(16).with_instruction_step_limit(1).with_program(std::iter::repeat_n(IntInstruction::push(1), announce)).map(|_| ()).map_err(|e| err_name(&e));
+            let c = Twin::builder().with_max_stack_size(16).with_program((0..announce).map(|k| k as i64)).map(|_| ()).map_err(|e| err_name(&e));
+            (a, b, c)
+        });
+        if !matches!(&r, Ok((Err("Overflow"), Err("Overflow"), Err("Overflow")))) {
+            let observed = match &r { Ok(x) => format!("{x:?}"), Err(_) => "panic".to_string() };
+            report("overflow-boundary", false, json!({"stack": "exec (program supplied lazily)", "max_size": 16, "program_elements_announced_by_an_exact_size_iterator": announce.to_string(), "expected": "Err(Overflow) from all three supplies", "observed": observed}));
+            return;
+        }
+    }
     report("overflow-boundary", true, json!({"cases": cases}));
 }
 
